@@ -1145,6 +1145,16 @@ def writers_tie(ctx, rng):
                               signature={"rule": "writer_raises", "level": "writer", "exception": type(e).__name__})
     stats["direct_sessions"] = len(cw.SESSIONS) - n1
     stats["direct_exceptions"] = derr
+    # candidate finding F14 (C08's flight budget; not a C13 sentence): PATH_CHALLENGE before ACK, replayed on real connections
+    # through the public API on every run (informational: measured ledger before / after the offending datagrams_to_send)
+    try:
+        _STATE_on = cw._STATE["on"]
+        cw._STATE["on"] = False
+        stats["f14_replay"] = [cw.f14_search(_mk_pair, CADDR, CADDR2, SADDR, pings=p) for p in (0, 60)]
+    except Exception as e:
+        stats["f14_replay"] = repr(e)
+    finally:
+        cw._STATE["on"] = _STATE_on
     stats["drivers_wall_s"] = round(time.time() - t0, 1)
     # direct and API sessions first (they are few and reach every writer), then the simulated runs
     sessions = list(corr.load_corpus("C13", "writers")) + cw.SESSIONS[n0:] + cw.SESSIONS[:n0]
